@@ -85,6 +85,7 @@ type Obligation struct {
 	Results []Val          // return values (post obligations)
 
 	// filled by solver
+	poolTried bool
 	Result string // unsat | sat | unknown | timeout | error
 	Solver string
 	Secs   float64
@@ -124,6 +125,7 @@ type State struct {
 	Lets    map[string]SV // site-level let bindings of the function under verification
 	CurArgs []SV          // arguments of the root-frame call being executed
 	CurRet  *SV
+	seen    map[string]bool // assertions already present (deduplication)
 }
 
 func (s *State) top() *Frame { return s.Stack[len(s.Stack)-1] }
@@ -197,6 +199,16 @@ func (s *State) assume(t Term) {
 			return
 		}
 	}
+	if s.seen == nil {
+		s.seen = map[string]bool{}
+		for _, a := range s.Asserts {
+			s.seen[a.S] = true
+		}
+	}
+	if s.seen[t.S] {
+		return // already assumed on this path
+	}
+	s.seen[t.S] = true
 	s.Asserts = append(s.Asserts, t)
 }
 
